@@ -34,7 +34,9 @@ Lit(text) == Node("L", text, <<>>)
 
 TensorNames == {"A", "b2", "i"}
 IndexLists == {<<>>, <<"i">>, <<"i", "j">>, <<"j", "i">>, <<"A">>, <<"i", "i">>}
-Spellings == {"7", "007", "1.5", "1e3", "1E+3", "2.5e-1", "0.0", "1e999"}
+Spellings == {"7", "007", "1.5", "1e3", "1E+3", "2.5e-1", "0.0", "1e999",
+              "9007199254740993",      \* 2^53 + 1: an integer literal is an integer, not a rounded double
+              "123456789012345678901234567890"}
 
 LeafSet == {Tensor(nm, ix) : nm \in TensorNames, ix \in IndexLists} \cup {Lit(t) : t \in Spellings}
 OpSet(d) == {Node(o, "", <<Hole(d), Hole(d)>>) : o \in {"+", "-", "*"}} \cup {Node("P", "", <<Hole(d)>>)}
